@@ -372,9 +372,14 @@ def _dominators(n, succ, pred, roots, multi=False):
 
 
 class Facts:
-    def __init__(self, path):
+    def __init__(self, path, normalise=False):
         with open(path) as fh:
-            self.j = json.load(fh)
+            text = fh.read()
+        if normalise:
+            # the Rcvar alias substitution: analyse a `sync` build with the same rule patterns
+            text = text.replace("std::sync::Arc", "std::rc::Rc")
+        self.j = json.loads(text)
+        self.normalised = normalise
         self.path = path
         self.crate = self.j["crate"]
         self.tag = self.j["tag"]
